@@ -536,7 +536,7 @@ func vacGen(mode string) mwGenCfg {
 	}
 	return mwGenCfg{maxWriters: 3, keyChoices: []int{2, 4, 6, 10}, maxSteps: 40,
 		wStmt: 12, wTxn: 3, wRefresh: 3, wRetry: 0, wPartial: 0, wObserve: 0, wVacuum: 4,
-		wIns: 4, wUpd: 3, wDel: 4, multiRow: true, mode: mode, smallVals: true}
+		wIns: 4, wUpd: 3, wDel: 4, multiRow: true, mode: mode, smallVals: true, returnPattern: 8}
 }
 
 func init() {
